@@ -197,3 +197,8 @@ Definition outcome_ok (c : cls) (l : list event) (ev : event) : bool :=
   | _ => true
   end.
 Definition outcomesb (c : cls) (l : list event) : bool := forallb (outcome_ok c l) l.
+
+(* ---- the whole Spec applied to an observed run: request class, event log,
+        len(Result.Errors) ---- *)
+Definition spec_ok (c : cls) (log : list event) (nerr : N) : bool :=
+  balancedb log && nestedb log && orderedb log && stopsb log && reportedb log nerr && outcomesb c log.
